@@ -24,11 +24,12 @@ Record TInv (s : ost) : Prop := {
 }.
 
 Lemma random_values_fresh fuel sp tried seed col v seed' :
-  random_values samp max_collisions fuel sp tried seed col = (Some v, seed') → v ∉ tried.
+  random_values samp draw max_collisions fuel sp tried seed col = (Some v, seed') → v ∉ tried.
 Proof.
   revert seed col. induction fuel as [|fuel IH]; intros seed col H; simpl in H; [by inversion H|].
   destruct (sample_pass samp sp 0 empty_hps seed) as [s sd] eqn:Es.
-  unfold duplicate, hash_of in H. destruct (bool_decide (s_values s ∈ tried)) eqn:Ed.
+  cbv zeta in H. set (v0 := (ensure_go draw sp sp (s_values s) 0).1) in H.
+  unfold duplicate, hash_of in H. destruct (bool_decide (v0 ∈ tried)) eqn:Ed.
   - destruct (Nat.ltb max_collisions (S col)); [done|]. by eapply IH.
   - inversion H; subst. by apply bool_decide_eq_false in Ed.
 Qed.
@@ -62,7 +63,7 @@ Definition static_end (s : ost) (o : rop) : Prop :=
   end.
 (* freshly sampled values are already complete, so the fill-in leaves them alone *)
 Definition sample_complete (s : ost) : Prop :=
-  ∀ v seed seed' k, random_values samp max_collisions (S (S max_collisions)) (s_space (a_osp (algo s))) (a_tried (algo s)) seed 0 = (Some v, seed') →
+  ∀ v seed seed' k, random_values samp draw max_collisions (S (S max_collisions)) (s_space (a_osp (algo s))) (a_tried (algo s)) seed 0 = (Some v, seed') →
      (ensure_go draw (s_space (a_osp (algo s))) (s_space (a_osp (algo s))) v k).1 = v.
 
 Lemma vals_of_upd (s : ost) ts' id t0 t' j :
@@ -116,7 +117,7 @@ Proof.
                                        retryq := retryq s; tuner_ids := tids; algo := a'; disk := disk s |}
                 end).
       { unfold rpopulate.
-        destruct (random_values samp max_collisions (S (S max_collisions)) (s_space (a_osp (algo s))) (a_tried (algo s)) (a_seed (algo s)) 0) as [[v0|] seed'] eqn:Erv.
+        destruct (random_values samp draw max_collisions (S (S max_collisions)) (s_space (a_osp (algo s))) (a_tried (algo s)) (a_seed (algo s)) 0) as [[v0|] seed'] eqn:Erv.
         - pose proof (random_values_fresh _ _ _ _ _ _ _ Erv) as Hfresh.
           pose proof (Hsc v0 _ _ (a_k (algo s)) Erv) as Hens.
           destruct (ensure_go draw (s_space (a_osp (algo s))) (s_space (a_osp (algo s))) v0 (a_k (algo s))) as [v' k'] eqn:Ee. cbn in Hens. subst v'.
